@@ -862,7 +862,9 @@ class Explorer:
                         del self.goals[ng:]
                 except PathAbort as e:
                     self.stats['aborted'] += 1
-                    if str(e) == 'other shard':
+                    if str(e) in ('other shard', 'infeasible', 'assumption false', 'late assumption false'):
+                        # the path is dead (no execution follows it): goals recorded on it before the abort were taken
+                        # under an incomplete path condition (later assumptions missing) and are dropped
                         del self.goals[ng:]
                 self.stats['paths'] += 1
         finally:
